@@ -30,15 +30,7 @@ def _time(symx, V, name, lo=-100000, hi=100000):
 
 
 def _tick_of(symx, beat):
-    """(aligned: bool-ish, k: z3 Int/python int) for a Beat result: k = 48*beat when the beat is tick aligned"""
-    import z3
-    nd = symx.nd_of(beat)
-    if nd is not None and 48 % nd[1] == 0:
-        n, d = nd
-        return True, (n * (48 // d) if symx.is_term(n) else n * (48 // d))
-    r48 = symx.zr(symx.term_of(beat)) * 48
-    k = symx.floor_term(r48)
-    return symx.CTL.branch(z3.ToReal(k) == r48), k
+    return symx.tick_index(beat)
 
 
 def _eq(symx, a, b):
